@@ -142,6 +142,16 @@ fn real_main() -> i32 {
                 }
             };
             let mut res = enginex::replay_x(&rt, &rp);
+            if rp.class == "NameClash" {
+                // fails as recorded, passes with fresh names
+                if let (Ok(Some(_)), Some(tw)) = (&res, &rp.unique_twin) {
+                    let mut t = rp.clone();
+                    t.source = tw.clone();
+                    if let Ok(Some(_)) = enginex::replay_x(&rt, &t) {
+                        res = Ok(Some(("Other".into(), "fails with unique names as well".into())));
+                    }
+                }
+            }
             if rp.class == "Capture" {
                 // the capture class: the shadowed program fails and its renamed-apart twin passes
                 if let (Ok(Some(_)), Some(tw)) = (&res, &rp.unique_twin) {
